@@ -275,6 +275,9 @@ func shrink(scn *Scenario, sig string) *Scenario {
 }
 
 func (h *harness) finishCase(r *runner, scn *Scenario, key string) {
+	for _, ft := range r.fatal {
+		h.res.Fatalf("%s: %s", key, ft)
+	}
 	h.compare(r, scn)
 	h.report(r, scn)
 	h.res.Case(key, r.nontriv)
